@@ -1,7 +1,7 @@
 """C02 - only well-formed, solicited, bounded frames leave; no uninitialised byte on the wire."""
 from props.base import *
 from props.blk import *
-XORACLE = True   # spec/SpecTx.v predicates, extracted, run on the implementation's trace
+XORACLE = 'wf'   # spec/SpecTx.v predicates, extracted, run on the implementation's trace
 COQ_TARGETS = ['props/Properties_C02.vo']
 RULE = ('frame histories on randomly configured interfaces (MTU 576/577/1492/1500/2000/9216/random, wired and Wi-Fi, names and SSIDs of 0..40 bytes, '
         'failing getters): valid sessions (Discover/Emit/Probe/Query/QueryLargeTlv/Reset/Hello/Charge), mutated frames and pure noise (every opcode, ToS 0..3 and 255); '
